@@ -99,6 +99,15 @@ func (m *Model) noteWrite(l *MLoc, it *Item) {
 	}
 }
 
+// AdoptWritten installs it as the engine's current content of its id (found
+// there after an interrupted write) with the bookkeeping of a write: a
+// pending purge of the id is off (the engine holds a live item under it).
+func (m *Model) AdoptWritten(loc string, it *Item) {
+	l := m.Loc(loc)
+	l.Items[it.Id] = it
+	m.noteWrite(l, it)
+}
+
 // Confirm records that the engine has observed id (GetFact): if its purge
 // was pending it has now happened, together with its cascade.
 func (m *Model) Confirm(loc, id string) {
@@ -497,8 +506,23 @@ func (m *Model) RemFact(loc, id string, p Prot) (exists bool, removed []string, 
 	m.Purge(l)
 	_, exists = l.Items[id]
 	faulted := m.unc(l)[id]["+fault"]
+	// Whatever the model removes *through* an item whose content is unknown
+	// (a write to it failed or was interrupted) is not known to be removed:
+	// the engine's copy of that item may not name what the model's copy names.
+	viaFault := map[string]bool{}
+	for u, by := range m.unc(l) {
+		if by["+fault"] {
+			for d := range m.Dependents(l, u) {
+				viaFault[d] = true
+			}
+		}
+	}
 	removed = m.rem(l, id)
 	for _, r := range removed {
+		if viaFault[r] && r != id {
+			m.markUnc(l, r, map[string]bool{"+fault": true})
+			continue
+		}
 		if m.unc(l)[r]["+fault"] {
 			// a removal does not settle an id left unknown by a failed or
 			// interrupted operation (the engine may find nothing in memory
@@ -569,6 +593,17 @@ func (m *Model) Get(loc, id string, p Prot) (*Item, error) {
 // Ancestors returns loc and its transitive parents (parents first, depth
 // first, as the manual describes), or an error for a loop / unknown parent.
 func (m *Model) Ancestors(loc string) ([]string, error) {
+	names, _, err := m.AncestorPaths(loc)
+	return names, err
+}
+
+// AncestorPaths returns the location and its transitive parents (each once,
+// parents first) and the set of those reached along more than one path.
+// What an ancestor reached along two paths contributes to an inherited
+// result is not judged (its facts appear once per path, its matching rules
+// are a duplicate-id error); the callers turn a contribution from such an
+// ancestor into a don't-care and judge everything else.
+func (m *Model) AncestorPaths(loc string) ([]string, map[string]bool, error) {
 	var out []string
 	var walk func(name string, stack map[string]bool) error
 	walk = func(name string, stack map[string]bool) error {
@@ -593,19 +628,24 @@ func (m *Model) Ancestors(loc string) ([]string, error) {
 		return nil
 	}
 	err := walk(loc, map[string]bool{})
-	if err == nil {
-		seen := map[string]bool{}
-		for _, n := range out {
-			if seen[n] {
-				// an ancestor reached along two paths: inherited results appear
-				// once per path (or as a duplicate-id error); not judged
-				return out, refuse("dontcare: diamond ancestry")
-			}
-			seen[n] = true
-		}
+	if err != nil {
+		return out, nil, err
 	}
-	return out, err
+	seen := map[string]bool{}
+	multi := map[string]bool{}
+	var uniq []string
+	for _, n := range out {
+		if seen[n] {
+			multi[n] = true
+			continue
+		}
+		seen[n] = true
+		uniq = append(uniq, n)
+	}
+	return uniq, multi, nil
 }
+
+var errDiamond = refuse("dontcare: diamond ancestry")
 
 // DontCare reports whether a model refusal means "the statements leave this open".
 func DontCare(err error) bool {
@@ -654,9 +694,10 @@ func MatchBindings(pattern, data map[string]interface{}) ([]string, error) {
 // when the matcher itself refuses the pattern (then any error is expected).
 func (m *Model) Search(loc string, pattern map[string]interface{}, inherited bool, p Prot) (map[string][]string, error) {
 	names := []string{loc}
+	var multi map[string]bool
 	if inherited {
 		var err error
-		names, err = m.Ancestors(loc)
+		names, multi, err = m.AncestorPaths(loc)
 		if err != nil {
 			return nil, err
 		}
@@ -680,6 +721,9 @@ func (m *Model) Search(loc string, pattern map[string]interface{}, inherited boo
 				return nil, refuse("matcher: %v", err)
 			}
 			if len(bss) > 0 {
+				if multi[n] {
+					return nil, errDiamond
+				}
 				out[id] = append(out[id], bss...)
 				sort.Strings(out[id])
 			}
@@ -730,15 +774,56 @@ func (m *Model) SearchRules(loc string, event map[string]interface{}, inherited 
 
 func (m *Model) dispatch(loc string, event map[string]interface{}, p Prot, honourDisabled, inherited bool) (map[string][]string, error) {
 	names := []string{loc}
+	var multi map[string]bool
 	if inherited {
 		var err error
-		names, err = m.Ancestors(loc)
+		names, multi, err = m.AncestorPaths(loc)
 		if err != nil {
 			return nil, err
 		}
 	}
 	self := m.Loc(loc)
 	out := map[string][]string{}
+	if tid, has := event["trigger!"]; has && honourDisabled {
+		// An event that names a rule: only that rule of this very location
+		// is fetched (like GetRule: the location must be enabled and
+		// readable, the rule must exist), its disabled flag is honoured,
+		// and its `when`, if it has one, must still match the event.
+		id, ok := tid.(string)
+		if !ok {
+			return nil, refuse("trigger! is not a string")
+		}
+		if !m.Enabled(self) {
+			return nil, refuse("location disabled")
+		}
+		if !m.CanRead(self, p) {
+			return nil, refuse("read not allowed")
+		}
+		it, ok := self.Items[id]
+		if !ok || !m.Live(it) || RuleOf(it) == nil {
+			return nil, refuse("no rule %s to trigger", id)
+		}
+		if m.RuleDisabled(self, id) {
+			return out, nil
+		}
+		r := RuleOf(it)
+		if _, hasWhen := r["when"]; !hasWhen {
+			out[id] = []string{"{}"}
+			return out, nil
+		}
+		pat, ok := WhenPattern(r)
+		if !ok {
+			return out, nil
+		}
+		bss, err := MatchBindings(pat, event)
+		if err != nil {
+			return nil, refuse("matcher: %v", err)
+		}
+		if len(bss) > 0 {
+			out[id] = bss
+		}
+		return out, nil
+	}
 	for _, n := range names {
 		l := m.Loc(n)
 		if !m.Enabled(l) {
@@ -763,12 +848,18 @@ func (m *Model) dispatch(loc string, event map[string]interface{}, p Prot, honou
 			if !ok {
 				continue
 			}
-			if honourDisabled && m.RuleDisabled(self, id) {
-				continue
-			}
 			bss, err := MatchBindings(pat, event)
 			if err != nil {
+				if honourDisabled && m.RuleDisabled(self, id) {
+					continue
+				}
 				return nil, refuse("matcher: %v", err)
+			}
+			if len(bss) > 0 && multi[n] {
+				return nil, errDiamond // (found twice by the engine before it looks at the disabled flag)
+			}
+			if honourDisabled && m.RuleDisabled(self, id) {
+				continue
 			}
 			if len(bss) > 0 {
 				if _, dup := out[id]; dup {
@@ -1026,7 +1117,7 @@ func (m *Model) EvalQuery(loc string, q map[string]interface{}, in []map[string]
 		var out []map[string]interface{}
 		for _, bs := range in {
 			bound := substitute(pm, bs).(map[string]interface{})
-			names, err := m.Ancestors(loc)
+			names, multi, err := m.AncestorPaths(loc)
 			if err != nil {
 				return nil, err
 			}
@@ -1046,6 +1137,9 @@ func (m *Model) EvalQuery(loc string, q map[string]interface{}, in []map[string]
 					bss, err := core.Matches(matchCtx, CloneMap(bound), CloneMap(it.Body))
 					if err != nil {
 						return nil, refuse("matcher: %v", err)
+					}
+					if len(bss) > 0 && multi[n] {
+						return nil, errDiamond
 					}
 					for _, more := range bss {
 						nb := map[string]interface{}{}
